@@ -6,8 +6,11 @@
 
      st := sorted map key -> sorted map id -> value          (Base/SMap.v)
 
-   The log alphabet is SET / DEL / DROP / RENAME / FLUSHDB (cmd); a log record and a snapshot
-   record ("set key id string value") are both a cmd.  The rewrite is a sequence of atomic locked
+   The log alphabet is SET (with FIELDs and EX) / FSET / EXPIRE / PERSIST / DEL / PDEL / DROP /
+   RENAME / FLUSHDB (cmd); a log record and a snapshot record ("set key id [field n v]* [ex ttl]
+   string value") are both a cmd.  Hooks and channels have their own registry, commands and
+   rewrite phase (second half of the file); deadlines are has-deadline flags, the TTL digits the
+   snapshot writes are the functions obj_ttl_tenths / hook_ttl_tenths at the end.  The rewrite is a sequence of atomic locked
    sections ("steps"); between two steps the rewrite holds no lock and writer commands can run
    (the verif gate of internal/server/verif_shrink_on.go parks the real rewrite at exactly these
    places).  B-tree iteration (cols.Ascend(pivot), col.ScanGreaterOrEqual(pivot)) is modelled as
@@ -19,43 +22,134 @@ From Coq Require Import List NArith ZArith Bool.
 From T38 Require Import Base.Bytes Base.SMap Gen.Consts.
 Import ListNotations.
 
-Definition val := bytes.
+(* An object: the geometry / string payload (opaque token), the stored (non-zero) fields by name
+   — a field value is the canonical JSON text field.Value.JSON() writes — and has-deadline. *)
+Definition fval := bytes.
+Record obj := mkObj { o_geo : bytes; o_fields : smap fval; o_dl : bool }.
+Definition val := obj.
 Definition coll := smap val.
 Definition st := smap coll.
 
 Definition lookup (k i : bytes) (s : st) : option val :=
   match get k s with Some c => get i c | None => None end.
 
+(* FIELD name value arguments: None is a zero value (field.List.Set deletes the field) *)
+Definition fupd := list (bytes * option fval).
+
+Definition fset1 (fs : smap fval) (u : bytes * option fval) : smap fval :=
+  match snd u with Some v => set (fst u) v fs | None => del (fst u) fs end.
+
+(* for _, f := range fields { flist = flist.Set(f) } *)
+Definition apply_fields (fs : smap fval) (us : fupd) : smap fval := fold_left fset1 us fs.
+
+Definition ofval_eqb (a b : option fval) : bool :=
+  match a, b with
+  | Some x, Some y => bytes_eqb x y
+  | None, None => true
+  | _, _ => false
+  end.
+
+(* cmdFSET: for _, f := range fields { prev := ofields.Get(name); if !prev.Same(f) { ofields =
+   ofields.Set(f); updateCount++ } } — a missing field reads as the zero value *)
+Fixpoint fset_loop (fs : smap fval) (us : fupd) (n : nat) : smap fval * nat :=
+  match us with
+  | [] => (fs, n)
+  | u :: r =>
+      if ofval_eqb (get (fst u) fs) (snd u) then fset_loop fs r n
+      else fset_loop (fset1 fs u) r (S n)
+  end.
+
+(* the FIELD arguments the snapshot writes for an object: one per stored field, in list order *)
+Definition fields_of (fs : smap fval) : fupd := map (fun nv => (fst nv, Some (snd nv))) fs.
+
+(* PDEL key <pat>*: the model's patterns are literal prefixes (glob matching is C12's subject) *)
+Definition pmatch (pat id : bytes) : bool := hasPrefixb pat id.
+
 (* ---------------------------------------------------------------- commands *)
 
 Inductive cmd :=
-| CSet (k i : bytes) (v : val)
+| CSet (k i : bytes) (us : fupd) (ex : bool) (geo : bytes)   (* SET k i [FIELD n v]* [EX s] <geo> *)
+| CFset (k i : bytes) (us : fupd)                            (* FSET k i [n v]+ *)
+| CExpire (k i : bytes)
+| CPersist (k i : bytes)
 | CDel (k i : bytes)
+| CPdel (k pat : bytes)
 | CDrop (k : bytes)
 | CRename (a b : bytes)
 | CFlushdb.
 
+(* the snapshot record of a stored object: set key id [field name json]* [ex ttl] <geo> *)
+Definition rec_cmd (key id : bytes) (o : obj) : cmd :=
+  CSet key id (fields_of (o_fields o)) (o_dl o) (o_geo o).
+
 (* d.updated / the error of the handler *)
-Inductive outcome := Updated | NotUpdated | ErrKeyNotFound.
+Inductive outcome := Updated | NotUpdated | ErrKeyNotFound | ErrIdNotFound.
 
 Definition logged (o : outcome) : bool := match o with Updated => true | _ => false end.
 
-(* cmdSET / cmdDEL / cmdDROP / cmdRENAME / cmdFLUSHDB (crud.go), dataset part only *)
+(* collection col of key k after its objects changed: removed when empty *)
+Definition put_col (k : bytes) (col : coll) (s : st) : st :=
+  match col with [] => del k s | _ => set k col s end.
+
+(* cmdSET / cmdFSET / cmdEXPIRE / cmdPERSIST / cmdDEL / cmdPDEL / cmdDROP / cmdRENAME / cmdFLUSHDB
+   (crud.go), dataset part only *)
 Definition exec (s : st) (c : cmd) : st * outcome :=
   match c with
-  | CSet k i v =>
+  | CSet k i us ex geo =>
       let col := match get k s with Some c => c | None => [] end in
-      (set k (set i v col) s, Updated)
+      (* fields of the old object are kept and the given ones set on top; the deadline is the
+         given one or none *)
+      let old := match get i col with Some o => o_fields o | None => [] end in
+      (set k (set i (mkObj geo (apply_fields old us) ex) col) s, Updated)
+  | CFset k i us =>
+      match get k s with
+      | None => (s, ErrKeyNotFound)
+      | Some col =>
+          match get i col with
+          | None => (s, ErrIdNotFound)
+          | Some o =>
+              let '(fs', n) := fset_loop (o_fields o) us 0 in
+              (set k (set i (mkObj (o_geo o) fs' (o_dl o)) col) s,
+               match n with O => NotUpdated | S _ => Updated end)
+          end
+      end
+  | CExpire k i =>
+      match get k s with
+      | None => (s, NotUpdated)
+      | Some col =>
+          match get i col with
+          | None => (s, NotUpdated)
+          | Some o => (set k (set i (mkObj (o_geo o) (o_fields o) true) col) s, Updated)
+          end
+      end
+  | CPersist k i =>
+      match get k s with
+      | None => (s, NotUpdated)
+      | Some col =>
+          match get i col with
+          | None => (s, NotUpdated)
+          | Some o =>
+              if o_dl o then (set k (set i (mkObj (o_geo o) (o_fields o) false) col) s, Updated)
+              else (s, NotUpdated)
+          end
+      end
   | CDel k i =>
       match get k s with
       | Some col =>
           match get i col with
           | Some _ =>
-              let col' := del i col in
               (* if col.Count() == 0 { s.cols.Delete(key) } *)
-              (match col' with [] => del k s | _ => set k col' s end, Updated)
+              (put_col k (del i col) s, Updated)
           | None => (s, NotUpdated)
           end
+      | None => (s, NotUpdated)
+      end
+  | CPdel k pat =>
+      match get k s with
+      | Some col =>
+          let col' := filter (fun iv => negb (pmatch pat (fst iv))) col in
+          if Nat.eqb (length col') (length col) then (s, NotUpdated)
+          else (put_col k col' s, Updated)
       | None => (s, NotUpdated)
       end
   | CDrop k =>
@@ -113,7 +207,7 @@ Fixpoint ids_scan (key : bytes) (l : list (bytes * val)) (count : nat) (idsdone 
   | [] => (idsdone, nextid, out)
   | (id, v) :: r =>
       if Nat.eqb count mi then (false, id, out)
-      else ids_scan key r (S count) idsdone nextid (out ++ [CSet key id v])
+      else ids_scan key r (S count) idsdone nextid (out ++ [rec_cmd key id v])
   end.
 
 (* The rewrite between two locked sections.  The Go variables keys / nextkey / keysdone, and the
@@ -222,7 +316,7 @@ Definition no_rename (sched : list ev) : bool := forallb (fun e => negb (is_rena
 Definition flatten (s : st) : list (bytes * bytes * val) :=
   flat_map (fun kc => map (fun iv => (fst kc, fst iv, snd iv)) (snd kc)) s.
 
-Definition rec_of (x : bytes * bytes * val) : cmd := CSet (fst (fst x)) (snd (fst x)) (snd x).
+Definition rec_of (x : bytes * bytes * val) : cmd := rec_cmd (fst (fst x)) (snd (fst x)) (snd x).
 
 (* ---------------------------------------------------------------- the final swap and crashes *)
 
@@ -316,3 +410,129 @@ Definition startup_dir (d : dir) : dir :=
             | None => mkDir (Some []) (d_bak d) (d_shrink d)
             end
   end.
+
+(* ---------------------------------------------------------------- hooks and channels *)
+
+(* A hook or channel: kind, everything that is written back as is (endpoints, sorted metas, the
+   fence command: an opaque token here) and has-expiration. *)
+Record hook := mkHook { h_chan : bool; h_body : bytes; h_ex : bool }.
+Definition hreg := smap hook.
+
+Inductive hcmd :=
+| HSet (name : bytes) (h : hook)            (* SETHOOK / SETCHAN name ... *)
+| HDel (name : bytes) (chan : bool)         (* DELHOOK / DELCHAN name *)
+| HPdel (pat : bytes) (chan : bool)         (* PDELHOOK / PDELCHAN <pat>* *)
+| HFlush.                                   (* FLUSHDB *)
+
+(* HFatal: "hooks and channels cannot share the same name" — not one of the two errors loadAOF
+   ignores: when it comes up during loading the server does not start *)
+Inductive houtcome := HUpdated | HNotUpdated | HFatal.
+
+(* Hook.Equals: same endpoints, metas, command and expires.Equal — two hooks with an expiration
+   are never equal (the absolute time differs) *)
+Definition hook_same (a b : hook) : bool :=
+  bytes_eqb (h_body a) (h_body b) && negb (h_ex a) && negb (h_ex b).
+
+(* cmdSetHook / cmdDelHook (cmdDELHOOKop) / cmdPDelHook / cmdFLUSHDB, registry part *)
+Definition hexec (r : hreg) (c : hcmd) : hreg * houtcome :=
+  match c with
+  | HSet n h =>
+      match get n r with
+      | Some p =>
+          if negb (Bool.eqb (h_chan p) (h_chan h)) then (r, HFatal)
+          else if hook_same p h then (r, HNotUpdated)
+          else (set n h r, HUpdated)
+      | None => (set n h r, HUpdated)
+      end
+  | HDel n c =>
+      match get n r with
+      | Some p => if Bool.eqb (h_chan p) c then (del n r, HUpdated) else (r, HNotUpdated)
+      | None => (r, HNotUpdated)
+      end
+  | HPdel pat c =>
+      let r' := filter (fun nh => negb (pmatch pat (fst nh) && Bool.eqb (h_chan (snd nh)) c)) r in
+      if Nat.eqb (length r') (length r) then (r, HNotUpdated) else (r', HUpdated)
+  | HFlush => ([], HUpdated)
+  end.
+
+Definition hlogged (o : houtcome) : bool := match o with HUpdated => true | _ => false end.
+
+(* loadAOF on the hook records, pinned tree: None = a fatal error, the server refuses to start *)
+Fixpoint hreplay_orig (l : list hcmd) (r : hreg) : option hreg :=
+  match l with
+  | [] => Some r
+  | c :: t => match hexec r c with
+              | (_, HFatal) => None
+              | (r', _) => hreplay_orig t r'
+              end
+  end.
+
+(* Repaired loader (proposed_fixes/C09-load-nonfatal-rewrite-errors.diff): the error is ignored like
+   key-not-found / id-not-found, the record has no effect (hexec leaves the registry unchanged) *)
+Fixpoint hreplay (l : list hcmd) (r : hreg) : hreg :=
+  match l with
+  | [] => r
+  | c :: t => hreplay t (fst (hexec r c))
+  end.
+
+(* The hooks phase of the rewrite, after the scan loops: one locked section reads all names
+   (s.hooks.Walk), then one locked section per name looks the hook up again (GetHint) and writes
+   "sethook|setchan name [endpoints] [meta k v]* [ex ttl] command..." if it still exists. *)
+Inductive hpos := HNames | HEmit (names : list bytes) | HDone.
+Record hshrink := mkHShrink { hs_pos : hpos; hs_out : list hcmd }.
+
+Definition hshrink_init : hshrink := mkHShrink HNames [].
+
+Definition hnext (names : list bytes) : hpos := match names with [] => HDone | _ => HEmit names end.
+
+Definition hstep (live : hreg) (hs : hshrink) : hshrink :=
+  match hs_pos hs with
+  | HNames => mkHShrink (hnext (SMap.keys live)) (hs_out hs)
+  | HEmit [] => mkHShrink HDone (hs_out hs)
+  | HEmit (n :: rest) =>
+      match get n live with
+      | None => mkHShrink (hnext rest) (hs_out hs)                       (* hook == nil: return *)
+      | Some h => mkHShrink (hnext rest) (hs_out hs ++ [HSet n h])
+      end
+  | HDone => hs
+  end.
+
+Definition hs_done (hs : hshrink) : bool := match hs_pos hs with HDone => true | _ => false end.
+
+(* hook commands run at any time while the rewrite is going on (also during the object scan, i.e.
+   before the first hstep); the shrinklog keeps the updated ones *)
+Record hrun := mkHRun { hr_live : hreg; hr_sh : hshrink; hr_log : list hcmd }.
+Inductive hev := HW (c : hcmd) | HStep.
+
+Definition hdo_ev (r : hrun) (e : hev) : hrun :=
+  match e with
+  | HW c =>
+      let '(r', o) := hexec (hr_live r) c in
+      mkHRun r' (hr_sh r) (if hlogged o then hr_log r ++ [c] else hr_log r)
+  | HStep => mkHRun (hr_live r) (hstep (hr_live r) (hr_sh r)) (hr_log r)
+  end.
+
+Definition hrun_init (r0 : hreg) : hrun := mkHRun r0 hshrink_init [].
+Definition hrun_sched (sched : list hev) (r : hrun) : hrun := fold_left hdo_ev sched r.
+Definition hnewfile (r : hrun) : list hcmd := hs_out (hr_sh r) ++ hr_log r.
+
+(* every name keeps its kind: the initial registry and every SETHOOK/SETCHAN of the schedule agree
+   with kind (name -> is a channel) *)
+Definition hev_kind_ok (kind : bytes -> bool) (e : hev) : bool :=
+  match e with HW (HSet n h) => Bool.eqb (h_chan h) (kind n) | _ => true end.
+Definition kind_consistent (kind : bytes -> bool) (r0 : hreg) (sched : list hev) : bool :=
+  forallb (fun nh => Bool.eqb (h_chan (snd nh)) (kind (fst nh))) r0 && forallb (hev_kind_ok kind) sched.
+
+(* ---------------------------------------------------------------- TTL digits *)
+
+Open Scope Z_scope.
+
+(* objects: ttl := math.Floor(float64(o.Expires()-now)/float64(time.Second)*10) / 10;
+   if ttl < 0.1 { ttl = 0.1 } — in tenths of a second, times in nanoseconds (exact arithmetic) *)
+Definition obj_ttl_tenths (expires now : Z) : Z := Z.max 1 ((expires - now) / 100000000).
+
+(* hooks: strconv.FormatFloat(float64(time.Until(hook.expires))/float64(time.Second), 'f', 1, 64):
+   rounded to the nearest tenth, no lower bound *)
+Definition hook_ttl_tenths (expires now : Z) : Z := (expires - now + 50000000) / 100000000.
+
+Close Scope Z_scope.
